@@ -4,7 +4,6 @@ import (
 	"fmt"
 	"go/constant"
 	"go/token"
-	"go/types"
 	"math/big"
 	"sort"
 	"strings"
@@ -62,45 +61,52 @@ func checkC16(c *Ctx, r *Report) {
 }
 
 func c16Exponent(r *Report, p *Prog, fn, what string, want *big.Int) {
-	pk := p.Pkgs["sm2/internal/fiat"]
-	fd := findFuncDecl(pk, "", fn)
-	if fd == nil || fd.Body == nil {
-		r.Fatalf("unresolved anchor: fiat.%s", fn)
+	f := p.MustFunc(r, "sm2/internal/fiat."+fn)
+	if f == nil {
 		return
 	}
-	params := fd.Type.Params.List
-	var names []*types.Var
-	for _, fl := range params {
-		for _, n := range fl.Names {
-			names = append(names, pk.TypesInfo.Defs[n].(*types.Var))
-		}
-	}
-	if len(names) != 2 {
+	key := "fiat." + fn
+	pos := p.Pos(f.Pos())
+	if len(f.Params) != 2 {
 		r.Fatalf("fiat.%s: expected (z, x) parameters", fn)
 		return
 	}
-	ev := &slEval{p: p, pk: pk, dom: expDomain{}, vars: map[types.Object]*slCell{}, fields: map[string]*slCell{}, globals: map[types.Object]*slCell{}, outFields: map[string]bool{}, inputRecvs: map[types.Object]bool{}}
-	zc := &slCell{id: "z"}
-	xc := &slCell{id: "x", val: big.NewInt(1)}
-	ev.vars[names[0]] = zc
-	ev.vars[names[1]] = xc
-	ev.run(fd.Body)
-	key := "fiat." + fn
-	pos := p.Pos(fd.Pos())
-	r.Count("chain_steps", ev.ops)
-	if len(ev.undecided) > 0 {
-		r.Undecided("INVERSE-EXPONENT", key, pos, strings.Join(ev.undecided, "; "))
+	// abstract evaluation in the exponent domain with the state-set interpreter (helpers and constant-bound loops are
+	// followed; Mul adds exponents, Square doubles them)
+	e := newSched(p, map[string]*tabSem{})
+	e.expMode = true
+	st := newSState()
+	mk := func() int {
+		id := e.newID()
+		a := &hArray{elems: make([]sVal, 4)}
+		for i := range a.elems {
+			a.elems[i] = sOpaque{"limb"}
+		}
+		st.heap[id] = a
+		return id
+	}
+	zid, xid := mk(), mk()
+	st.exps = map[int]pform{xid: {pfKey("", "x"): big.NewInt(1)}}
+	rets := e.runFunc(f, st, []sVal{sPtr{zid, -1}, sPtr{xid, -1}})
+	r.Count("chain_steps", e.expOps)
+	if len(e.errs) > 0 || len(e.panics) > 0 || len(rets) != 1 {
+		r.Viol("INVERSE-EXPONENT", key, pos, "the chain cannot be followed as a fixed sequence of multiplications and squarings: "+strings.Join(append(append([]string{}, e.errs...), e.panics...), "; ")+ifs(len(rets) != 1, fmt.Sprintf(" (%d return paths)", len(rets))))
 		return
 	}
-	if xc.val.(*big.Int).Cmp(big.NewInt(1)) != 0 {
+	fin := rets[0].st
+	if xf, ok := fin.exps[xid]; !ok || !pfEqual(xf, pform{pfKey("", "x"): big.NewInt(1)}) {
 		r.Viol("INVERSE-EXPONENT", key+" input preserved", pos, "the chain overwrites its input x")
 	}
-	got, _ := zc.val.(*big.Int)
-	if got == nil {
+	zf, ok := fin.exps[zid]
+	if !ok {
 		r.Viol("INVERSE-EXPONENT", key, pos, "z is never assigned")
 		return
 	}
-	r.Check(got.Cmp(want) == 0, "INVERSE-EXPONENT", key+" raises to "+what, pos, fmt.Sprintf("%d field operations; exponent reached 0x%x, %s = 0x%x", ev.ops, got, what, want))
+	got := zf[pfKey("", "x")]
+	if got == nil {
+		got = big.NewInt(0)
+	}
+	r.Check(len(zf) == 1 && got.Cmp(want) == 0, "INVERSE-EXPONENT", key+" raises to "+what, pos, fmt.Sprintf("%d field operations; exponent reached 0x%x, %s = 0x%x", e.expOps, got, what, want))
 }
 
 // c16InvertCallees: the transitive callees of both Invert methods are exactly the chain and Mul/Square.
@@ -149,12 +155,12 @@ func c16InvertCallees(r *Report, p *Prog) {
 		allowed := map[string]bool{spec.m: true, "sm2/internal/fiat." + spec.chain: true, "sm2/internal/fiat." + spec.mul: true, "sm2/internal/fiat." + spec.sq: true}
 		for f := range seen {
 			n := p.FuncName(f)
-			if !allowed[n] && !strings.Contains(n, "CmovznzU64") {
+			if !allowed[n] && !strings.Contains(n, "CmovznzU64") && !strings.HasPrefix(n, "sm2/internal/fiat.") {
 				bad = append(bad, n)
 			}
 		}
 		sort.Strings(bad)
-		r.Check(len(bad) == 0, "INVERSE-BY-FIXED-EXPONENTIATION", spec.m, p.Pos(fn.Pos()), fmt.Sprintf("transitive callees are the addition chain, Mul, Square only; others: %v", bad))
+		r.Check(len(bad) == 0, "INVERSE-BY-FIXED-EXPONENTIATION", spec.m, p.Pos(fn.Pos()), fmt.Sprintf("transitive callees are functions of package fiat and math/bits only (what they compute is fixed by INVERSE-EXPONENT); others: %v", bad))
 	}
 }
 
